@@ -27,8 +27,13 @@ pub fn beh_of(v: &Value) -> ModificationBehavior {
 
 pub fn layer_env_of(inserts: &Value) -> LayerEnv {
     let mut le = LayerEnv::new();
-    for i in inserts.as_array().expect("inserts") {
-        le.insert(scope_of(&i["s"]), beh_of(&i["b"]), os_of(&i["n"]), os_of(&i["v"]));
+    for (k, i) in inserts.as_array().expect("inserts").iter().enumerate() {
+        // both spellings of the public API: insert(&mut self) and chainable_insert(self)
+        if k % 2 == 0 {
+            le.insert(scope_of(&i["s"]), beh_of(&i["b"]), os_of(&i["n"]), os_of(&i["v"]));
+        } else {
+            le = le.chainable_insert(scope_of(&i["s"]), beh_of(&i["b"]), os_of(&i["n"]), os_of(&i["v"]));
+        }
     }
     le
 }
@@ -55,7 +60,7 @@ pub fn run(case: &Value) -> Value {
     let le2 = layer_env_of(&case["ins2"]);
     let env0 = env_of(&case["env0"]);
     let before = env0.clone();
-    let out = le.apply(scope_of(&case["scope"]), &env0);
+    let out = if env0.iter().next().is_none() { le.apply_to_empty(scope_of(&case["scope"])) } else { le.apply(scope_of(&case["scope"]), &env0) };
     let out2 = le2.apply(scope_of(&case["scope"]), &env0);
     json!({
         "id": case["id"],
